@@ -843,16 +843,24 @@ func checkC13(c *gramCase, ps *c13Parsers, r *vstat.Run) outcome {
 	if err != nil {
 		return outcome{}
 	}
-	m, _, _, _, expensive := runModel(&bInf, lx, false)
+	m, _, _, _, expensive := runModel(&bInf, lx, c.AllowTrailing)
 	if expensive {
 		if r != nil {
 			r.Count("skipped_expensive")
 		}
 		return outcome{}
 	}
+	var popts []participle.ParseOption
+	if c.AllowTrailing {
+		// what is left over may stay: the parse that gets there is still the same parse at every larger lookahead
+		popts = append(popts, participle.AllowTrailing(true))
+		if r != nil {
+			r.Count("cases_with_trailing_input_allowed")
+		}
+	}
 	for i, b := range ps.bs {
 		i, b := i, b
-		if p := guard(func() { out[i].ast, out[i].err = b.P.ParseString("f", c.Input) }); p != "" {
+		if p := guard(func() { out[i].ast, out[i].err = b.P.ParseString("f", c.Input, popts...) }); p != "" {
 			for j := 0; j < i; j++ {
 				if out[j].err == nil {
 					return violationf("panic-at-larger-lookahead", "input %q parses with lookahead %d but panics with the larger lookahead %d: %s\n%s", c.Input, c13Ladder[j], c13Ladder[i], p, c.G.String())
@@ -1002,7 +1010,7 @@ func TestC13(t *testing.T) {
 		r.Count("grammars")
 		for i := 0; i < 4; i++ {
 			toks := gram.GenInput(t, g)
-			c := &gramCase{G: g, Input: gram.Render(t, g, toks, "r")}
+			c := &gramCase{G: g, Input: gram.Render(t, g, toks, "r"), AllowTrailing: rapid.IntRange(0, 3).Draw(t, "trailing") == 0}
 			report(t, r, checkC13(c, ps, r), c)
 		}
 	})
